@@ -436,6 +436,9 @@ type CapSpec struct {
 type ProofRef struct {
 	Tok    string // name of the proof token
 	Inline bool   // embed its blocks (otherwise only the link is cited)
+	// Shallow: embedded as a view that holds ONLY its root block (a copy whose own proofs did not come along); used next
+	// to a full copy of the same token
+	Shallow bool
 }
 
 type TokSpec struct {
@@ -549,7 +552,17 @@ func (w *World) Build() error {
 			if pb == nil {
 				return fmt.Errorf("world %d: proof %s of %s not built", w.ID, pr.Tok, sp.Name)
 			}
-			if pr.Inline {
+			if pr.Inline && pr.Shallow {
+				br, err := blockstore.NewBlockReader(blockstore.WithBlocks([]ipld.Block{pb.Dlg.Root()}))
+				if err != nil {
+					return err
+				}
+				sh, err := delegation.NewDelegationView(pb.Dlg.Link(), br)
+				if err != nil {
+					return err
+				}
+				prfs = append(prfs, delegation.FromDelegation(sh))
+			} else if pr.Inline {
 				prfs = append(prfs, delegation.FromDelegation(pb.Dlg))
 			} else {
 				prfs = append(prfs, delegation.FromLink(pb.Dlg.Link()))
@@ -573,8 +586,15 @@ func (w *World) Build() error {
 		if sp.DefaultExp {
 			// no expiration option: ucan.Issue defaults to 30 s from now
 		} else if sp.Exp == nil {
+			// every third world states the expiration twice, a contradicting default first: the LAST option given is in force
+			if w.ID%3 == 1 {
+				opts = append(opts, delegation.WithExpiration(int(ucan.Now())-5000))
+			}
 			opts = append(opts, delegation.WithNoExpiration())
 		} else {
+			if w.ID%3 == 1 {
+				opts = append(opts, delegation.WithNoExpiration())
+			}
 			opts = append(opts, delegation.WithExpiration(*sp.Exp))
 		}
 		if sp.Nbf != 0 {
@@ -696,6 +716,12 @@ func accessorMismatch(issued delegation.Delegation, sp *TokSpec, sg ucan.Signer,
 	for i, c := range d.Capabilities() {
 		if c.Can() != sp.Caps[i].Can || c.With() != sp.Caps[i].With {
 			return fmt.Sprintf("Capabilities()[%d] = %s on %s, issued %s on %s", i, c.Can(), c.With(), sp.Caps[i].Can, sp.Caps[i].With)
+		}
+		// the caveats written in the token are the ones the builder produced (also when the builder's value is all zeroes)
+		if want, err := sp.Caps[i].Nb.ToIPLD(); err == nil && want != nil {
+			if got := nbNode(c.Nb()); got == nil || !nodeEqual(got, want) {
+				return fmt.Sprintf("Capabilities()[%d].Nb() is not what the caveat builder produced", i)
+			}
 		}
 	}
 	return ""
@@ -1047,6 +1073,17 @@ func (w *World) checker(obs *Obs) validator.RevocationCheckerFunc[any] {
 		path := walkAuth(auth)
 		var hit delegation.Delegation
 		for a := auth; a != nil; {
+			// what the untyped authorization says about its principals is what its delegation says (a checker may revoke by issuer)
+			if p := recovered(func() {
+				if a.Issuer().DID() != a.Delegation().Issuer().DID() || a.Audience().DID() != a.Delegation().Audience().DID() {
+					if curStats != nil && len(curStats.AccessorMismatches) < 20 {
+						curStats.AccessorMismatches = append(curStats.AccessorMismatches, fmt.Sprintf("world %d authorization handed to the revocation checker: Issuer() / Audience() = %s / %s, its delegation says %s / %s",
+							w.ID, a.Issuer().DID(), a.Audience().DID(), a.Delegation().Issuer().DID(), a.Delegation().Audience().DID()))
+					}
+				}
+			}); p != nil && curStats != nil && len(curStats.AccessorMismatches) < 20 {
+				curStats.AccessorMismatches = append(curStats.AccessorMismatches, fmt.Sprintf("world %d authorization handed to the revocation checker: Issuer() / Audience() panicked: %v", w.ID, p))
+			}
 			for name, rv := range w.Ctx.Revoked {
 				if rv && w.built[name] != nil && w.built[name].Dlg.Link().String() == a.Delegation().Link().String() {
 					hit = a.Delegation()
